@@ -119,6 +119,24 @@ func check(c *pbt.Case, r *pbt.R) {
 		// Already a status error: passes through unchanged.
 		want := s.GRPCStatus()
 		gs, ok := grpcstatus.FromError(got)
+		sameDetails := func(a *grpcstatus.Status) bool {
+			da, dw := a.Proto().GetDetails(), want.Proto().GetDetails()
+			if len(da) != len(dw) {
+				return false
+			}
+			for i := range da {
+				if da[i].GetTypeUrl() != dw[i].GetTypeUrl() || string(da[i].GetValue()) != string(dw[i].GetValue()) {
+					return false
+				}
+			}
+			return true
+		}
+		if len(want.Proto().GetDetails()) > 0 {
+			r.Count("handler error", "status error with details")
+		}
+		if ok && (!sameDetails(gs) || !sameDetails(rawSt)) {
+			r.Failf("a gRPC status error loses its details on the way", "want %d details; client got %v; raw %v\n%s", len(want.Proto().GetDetails()), gs.Proto().GetDetails(), rawSt.Proto().GetDetails(), c.Spec)
+		}
 		if !ok || gs.Code() != want.Code() || gs.Message() != want.Message() || rawSt.Code() != want.Code() || rawSt.Message() != want.Message() {
 			r.Failf("a gRPC status error does not pass through unchanged", "want %v %q; client got %v; raw %v\n%s", want.Code(), want.Message(), got, raw, c.Spec)
 		}
